@@ -35,6 +35,7 @@ def run(check: Check, repo: Repo, tier: str) -> None:
     check.floor("NO-MUTATION", 40, "write sites in the schema transformation modules")
     D.extend_build_agree(check, repo)
     D.oneof_definition_only(check, repo)
+    D.mapper_new_nodes_only(check, repo)
     D.root_overwrite(check, repo)
     D.change_flag(check, repo)
     D.cross_schema_identity(check, repo)
@@ -65,3 +66,4 @@ def run(check: Check, repo: Repo, tier: str) -> None:
     X.attr_memo(check, repo, [repo.mod(m) for m in ("utilities.extend_schema", "utilities.build_ast_schema", "utilities.coerce_input_value", "utilities.get_default_value_ast", "utilities.lexicographic_sort_schema")])
     check.floor("ATTR-MEMO", 1, "object-attribute memos reachable from schema printing / extension")
     D.or_fold(check, repo)
+    D.args_oneline(check, repo)
